@@ -139,6 +139,18 @@ class SymCtx(BaseCtx):
     def untraced(self):
         return NoTracing()
 
+    def feature_set(self, name, free=None, absent=()):
+        from vf import sfs
+
+        sfs.install()
+        with NoTracing():
+            fr = None if free is None else set(free)
+            if absent:
+                fr = (set(sfs.UNIV) if fr is None else fr) - set(absent)
+            s = sfs.SymFeatureSet.fresh(name, fr)
+            self.vars[name] = sfs.SymFeatureSet(dict(s.bits))  # pristine copy: the real code mutates sets in place
+        return s
+
     def witness(self, tag="w"):
         with NoTracing():
             self.witnesses[tag] += 1
@@ -165,6 +177,14 @@ class SymCtx(BaseCtx):
                     out[name] = z3_to_py(model.eval(v.var, model_completion=True))
                 else:
                     out[name] = self.space.find_model_value(v.var)
+            elif hasattr(v, "bits"):
+                if model is None:
+                    if self.space.solver.check() != z3.sat:
+                        raise UnexploredPath("no model for feature set")
+                    model = self.space.solver.model()
+                    for t in [t for vv in self.vars.values() if hasattr(vv, "bits") for t in vv.bits.values()]:
+                        self.space.solver.add(t == model.eval(t, model_completion=True))
+                out[name] = sorted(f for f, t in v.bits.items() if z3.is_true(model.eval(t, model_completion=True)))
             else:
                 out[name] = v
         return out
@@ -236,9 +256,9 @@ def explore(fn, kwargs=None, budget_s=120.0, per_path_s=30.0, max_violations=4, 
                     extra = dict(v.extra)
                     values = extra.pop("_values", None)
                     models = extra.pop("_models", [])
-                    if values is None:
-                        values = ctx.model_values()
                     if v.sig not in seen_sigs and len(res["violations"]) < max_violations:
+                        if values is None:
+                            values = ctx.model_values()
                         seen_sigs.add(v.sig)
                         res["violations"].append(dict(sig=v.sig, msg=str(v.msg), values=values, models=models,
                                                       extra={k: repr(x) for k, x in extra.items()}))
@@ -274,7 +294,10 @@ def explore(fn, kwargs=None, budget_s=120.0, per_path_s=30.0, max_violations=4, 
             res["decisions"] += len(space.choices_made)
             if len(res["samples"]) < samples and (ctx.witnesses or i <= samples):
                 try:
-                    vals = {k: (v if not isinstance(v, (SymbolicInt, SymbolicBool)) else "sym:" + str(v.var))
+                    vals = {k: (v if isinstance(v, (int, bool, str)) and not isinstance(v, (SymbolicInt, SymbolicBool))
+                                else ("sym:" + str(v.var) if isinstance(v, (SymbolicInt, SymbolicBool))
+                                      else "symbolic feature set (one solver Boolean per free feature)" if hasattr(v, "bits")
+                                      else str(type(v).__name__)))
                             for k, v in ctx.vars.items()}
                     res["samples"].append(dict(path=i, status=str(status), vars=vals, notes=dict(ctx.notes),
                                                witnesses=dict(ctx.witnesses)))
